@@ -37,20 +37,8 @@ RULE = ("for each injector: random small data sets (0..6 rows quick / 0..8 thoro
         "(+ int64 arrays for the structural injectors); a few windows reaching past the data for the slice-based injectors. "
         "np.random.seed(case seed) before every call; draws are recomputed with the same seed for the model. "
         "Non-trivial: the window is non-empty and the output differs from the input (resampling: window holds >= 2 different rows; "
-        "cover: >= 2 groups and n >= 1). Inputs on which the unchanged code is known to fail (open findings F1-F3, see "
-        "notes/design_C20.md) are generated only with VERIF_C20_OPEN=1 or when known_findings.json lists them; the number of "
-        "candidates skipped for that reason is in stats.")
-
-OPEN_ENV = os.environ.get("VERIF_C20_OPEN") == "1"
-
-
-def _open_ids():
-    p = os.path.join(os.path.dirname(os.path.dirname(os.path.abspath(__file__))), "known_findings.json")
-    try:
-        return {k.get("match", {}).get("reason") for k in json.load(open(p)).get("findings", [])
-                if k.get("property") == ID and k.get("status") == "open"}
-    except Exception:
-        return set()
+        "cover: >= 2 groups and n >= 1). The minimal inputs on which the code failed before its repair (Dirichlet draw summing to "
+        "1+ulp, present class with probability 0 and negative rounding leftover, FeatureCover on data without rows) run first.")
 
 
 INJ = {"swap": FeatureSwapInjector, "shift": FeatureShiftInjector, "cover": FeatureCoverInjector,
@@ -202,7 +190,8 @@ def run_impl(case):
             obj2, _ = build_input(case)
             dfc = pd.DataFrame(np.copy(obj2), columns=(obj2.columns if isinstance(obj2, pd.DataFrame) else None))
             key = colarg(case, a["col"])
-            nn = a["size"] // len(dfc[key].unique())
+            ng = len(dfc[key].unique())
+            nn = a["size"] // ng if ng else 0
             np.random.seed(case["seed"])
             orc["idxs"] = [int(i) for i in dfc.groupby(key).sample(n=nn, random_state=a["rs"]).index]
     # ---- second application (involutions) ------------------------------------------------------
@@ -247,7 +236,7 @@ def expected_error(case):
         tot = 0
         for kv in a["cp"]:
             tot = tot + kv[1]
-        if tot > 1.0:
+        if tot > 1.0 + 1e-9:
             return "exceed 1"
         labels = [r[a["col"]] for r in rows]
         if any(not any(kv[0] == x for x in labels) for kv in a["cp"]):
@@ -256,7 +245,7 @@ def expected_error(case):
         labels = [r[a["col"]] for r in rows]
         if any(not any(kv[0] == x for x in labels) for kv in a["alpha"]):
             return "not found in data"
-    if k == "cover" and rows:
+    if k == "cover" and rows and a["size"] >= 0:
         labels = [r[a["col"]] for r in rows]
         groups = {}
         for x in labels:
@@ -269,12 +258,6 @@ def expected_error(case):
 
 def reason_of(case, obs):
     r = obs.get("raised") or ""
-    if case["inj"] == "dirichlet" and "Probabilities in" in r and "exceed 1" in r:
-        return "dirichlet-sum-exceeds-1"
-    if case["inj"] in ("prob", "dirichlet") and "non-negative" in r:
-        return "choice-negative-probability"
-    if case["inj"] == "cover" and "ZeroDivisionError" in r and not case["rows"]:
-        return "cover-empty-data"
     return r.split(":")[0] if r else None
 
 
@@ -417,14 +400,14 @@ def check_pdist(case, obs, win):
     if any(v < 0 for v in p):
         msgs.append(f"{k}: negative entry in _p_distribution {p}")
     tot = sum(Fraction(v) for v in p)
-    if abs(tot - 1) > Fraction(1, 10**9):
+    if abs(tot - 1) > Fraction(2, 10**9):
         msgs.append(f"{k}: _p_distribution sums to {float(tot)!r}")
     rows, c = case["rows"], a["col"]
     labels_all = sorted({r[c] for r in rows})
     req = {kv[0]: Fraction(kv[1]) for kv in a["cp"]} if k == "prob" else dict(
         zip([kv[0] for kv in a["alpha"]], [Fraction(v) for v in obs["oracle"]["dir"]]))
     undef = [x for x in labels_all if x not in req]
-    missing = 1 - sum(req.values())
+    missing = max(Fraction(0), 1 - sum(req.values()))
     for x in undef:
         req[x] = missing / len(undef)
     cnt = {x: sum(1 for i in win if rows[i][c] == x) for x in labels_all}
@@ -437,10 +420,10 @@ def check_pdist(case, obs, win):
             continue
         want = req[x] + cnt[x] * lo
         got = sum(Fraction(v) for v in block)
-        if abs(got - want) > Fraction(1, 10**9):
+        if abs(got - want) > Fraction(2, 10**9):
             msgs.append(f"{k}: class {x} has mass {float(got)!r} in _p_distribution, requested {float(req[x])!r} "
                         f"(+ share {float(cnt[x] * lo)!r} of the mass of absent classes)")
-        if any(abs(Fraction(v) - want / cnt[x]) > Fraction(1, 10**9) for v in block):
+        if any(abs(Fraction(v) - want / cnt[x]) > Fraction(2, 10**9) for v in block):
             msgs.append(f"{k}: class {x}: members do not share the class mass equally: {block}")
     return msgs
 
@@ -452,7 +435,7 @@ def check_cover(case, obs):
     msgs = []
     labels = [r[c] for r in rows]
     groups = sorted(set(labels))
-    nn = a["size"] // len(groups)
+    nn = a["size"] // len(groups) if groups else 0
     if obs["shape"] != [nn * len(groups), w - 1]:
         return [f"cover: shape {obs['shape']}, expected {[nn * len(groups), w - 1]} ({len(groups)} groups x {nn} rows, {w - 1} columns)"]
     if case["layout"] == "df":
@@ -676,9 +659,18 @@ def windows(n, rng=None, extra=False):
 
 def gen_cases(ctx):
     rng = ctx.rng
-    open_reasons = _open_ids()
-    allow = lambda reason: OPEN_ENV or reason in open_reasons
-    cases, skipped = [], {}
+    # the minimal inputs of the three repaired defects run first (see notes/design_C20.md)
+    cases = [
+        {"inj": "dirichlet", "layout": "C", "dtype": "float", "rows": [[0.0], [1.0]], "w": 1, "names": ["a"],
+         "from": 0, "to": 2, "args": {"col": 0, "alpha": [[0.0, 1.0], [1.0, 1.0]]}, "seed": 12},
+        {"inj": "prob", "layout": "C", "dtype": "float", "rows": [[0.0], [1.0], [2.0], [2.0], [2.0], [2.0]],
+         "w": 1, "names": ["a"], "from": 0, "to": 6, "args": {"col": 0, "cp": [[0.0, 0.0], [1.0, 1.0 / 3.0]]}, "seed": 0},
+        {"inj": "cover", "layout": "C", "dtype": "float", "rows": [], "w": 2, "names": ["a", "b"],
+         "from": 0, "to": 0, "args": {"col": 0, "size": 4, "rs": None}, "seed": 1},
+        {"inj": "cover", "layout": "df", "dtype": "float", "rows": [], "w": 2, "names": ["a", "b"],
+         "from": 0, "to": 0, "args": {"col": 1, "size": 0, "rs": 3}, "seed": 2},
+    ]
+    ctx.stats["repaired_defect_witnesses"] = len(cases)
     seedc = [0]
 
     def nseed():
@@ -692,16 +684,6 @@ def gen_cases(ctx):
             layout = LAYOUTS[layc[0] % len(LAYOUTS)]; layc[0] += 1
         case = {"inj": inj, "layout": layout, "dtype": dtype, "rows": rows, "w": w, "names": NAMES[:w],
                 "from": f, "to": t, "args": args, "seed": nseed()}
-        if inj in ("prob", "dirichlet", "cover"):
-            # open findings: inputs on which the unchanged code raises (documented in notes/design_C20.md)
-            try:
-                o = run_impl(case)
-                r = reason_of(case, o)
-            except Exception:
-                r = None
-            if r in ("dirichlet-sum-exceeds-1", "choice-negative-probability", "cover-empty-data") and not allow(r):
-                skipped[r] = skipped.get(r, 0) + 1
-                return
         cases.append(case)
         ctx.stats[f"cases_{inj}"] = ctx.stats.get(f"cases_{inj}", 0) + 1
         ctx.stats[f"layout_{layout}"] = ctx.stats.get(f"layout_{layout}", 0) + 1
@@ -761,7 +743,7 @@ def gen_cases(ctx):
                     if len(present) > 1 and rng.random() < 0.3:   # not all labels given weights
                         add("dirichlet", rows, w, f, t, {"col": lc, "alpha": [[x, float(rng.choice([1, 3]))] for x in present[:-1]]})
             # ---- cover
-            if n > 0 or allow("cover-empty-data"):
+            if True:
                 w = rng.randint(1, 4)
                 lc = rng.randrange(w)
                 rows, alpha = make_rows(rng, n, w, label_col=lc, nlabels=rng.randint(1, 3))
@@ -773,8 +755,6 @@ def gen_cases(ctx):
                 for size in sorted({0, 1, g, g * m, g * m + g - 1, g * (m + 1), max(0, g * m - 1)}):
                     for rs in (rng.randint(0, 10**6), None):
                         add("cover", rows, w, 0, n, {"col": lc, "size": size, "rs": rs})
-            elif n == 0:
-                skipped["cover-empty-data"] = skipped.get("cover-empty-data", 0) + 1
     # ---- full cross product layout x window x column on one data set per injector, plus int64 arrays
     n, w = 3, 3
     for layout in LAYOUTS:
@@ -817,21 +797,6 @@ def gen_cases(ctx):
     for _ in range(ctx.scale(3, 12)):
         cases.append(freq_case(rng, nseed()))
         ctx.stats["cases_freq"] = ctx.stats.get("cases_freq", 0) + 1
-    # ---- the minimal witnesses of the open findings (only when they are enabled)
-    if allow("dirichlet-sum-exceeds-1"):
-        cases.append({"inj": "dirichlet", "layout": "C", "dtype": "float", "rows": [[0.0], [1.0]], "w": 1, "names": ["a"],
-                      "from": 0, "to": 2, "args": {"col": 0, "alpha": [[0.0, 1.0], [1.0, 1.0]]}, "seed": 12})
-    if allow("choice-negative-probability"):
-        cases.append({"inj": "prob", "layout": "C", "dtype": "float", "rows": [[0.0], [1.0], [2.0], [2.0], [2.0], [2.0]],
-                      "w": 1, "names": ["a"], "from": 0, "to": 6,
-                      "args": {"col": 0, "cp": [[0.0, 0.0], [1.0, 1.0 / 3.0]]}, "seed": 0})
-    if allow("cover-empty-data"):
-        cases.append({"inj": "cover", "layout": "C", "dtype": "float", "rows": [], "w": 2, "names": ["a", "b"],
-                      "from": 0, "to": 0, "args": {"col": 0, "size": 4, "rs": None}, "seed": 1})
-    for r, c in skipped.items():
-        ctx.stats["skipped_open_finding_" + r] = c
-    ctx.stats["open_findings_included"] = sorted(x for x in ("dirichlet-sum-exceeds-1", "choice-negative-probability",
-                                                             "cover-empty-data") if allow(x))
     return cases
 
 
